@@ -175,6 +175,61 @@ def run(ctx):
         r = "parse " + instgen.to_bytes(words).hex()
         reqs.append(r)
         metas[r] = (insts, ["unsupported"])
+    # long histories: hundreds of pairwise distinct numeric types (every width x signedness / float), each under its own id, and
+    # hundreds of values chained from them, before the consumers — the width of a literal depends on the declaration of *its* type, not on
+    # how many types, ids or values the stream has declared before (counts around 2^8, 2^9, 2^10, 2^12)
+    for n in ((255, 256, 257, 300, 513, 1100) if ctx.tier == "quick" else (255, 256, 257, 258, 300, 511, 512, 513, 1023, 1025, 1100, 4097)):
+        for first, (lw, lsigned_or_float) in ((32, (64, "int")), (64, (32, "float")), (16, (64, "float"))):
+            insts = [instgen.Inst(g.opv["TypeInt"], "TypeInt", None, 1000, [instgen.Op("w", L32, first), instgen.Op("w", L32, 0)])]
+            decls = {1000: first}
+            k = 0
+            while len(decls) < n:
+                k += 1
+                w = 65 + (k // 3)             # filler widths are all unsupported ones, pairwise distinct per kind
+                rid = 1000 + k
+                if k % 3 == 0:
+                    insts.append(instgen.Inst(g.opv["TypeFloat"], "TypeFloat", None, rid, [instgen.Op("w", L32, w)]))
+                else:
+                    insts.append(instgen.Inst(g.opv["TypeInt"], "TypeInt", None, rid, [instgen.Op("w", L32, w), instgen.Op("w", L32, k % 3 - 1)]))
+                decls[rid] = w
+            last = 1000 + k + 1
+            if lsigned_or_float == "int":
+                insts.append(instgen.Inst(g.opv["TypeInt"], "TypeInt", None, last, [instgen.Op("w", L32, lw), instgen.Op("w", L32, 1)]))
+            else:
+                insts.append(instgen.Inst(g.opv["TypeFloat"], "TypeFloat", None, last, [instgen.Op("w", L32, lw)]))
+            expect = []
+            # values of the first and of the last type, then consumers of both (constants and switches on the values)
+            insts.append(instgen.Inst(g.opv["Undef"], "Undef", 1000, 900, []))
+            insts.append(instgen.Inst(g.opv["Undef"], "Undef", last, 901, []))
+            for t, w, v in ((last, lw, 901), (1000, first, 900), (last, lw, 901)):
+                nw = 2 if w == 64 else 1
+                insts.append(instgen.Inst(g.opv["Constant"], "Constant", t, 902, g.literal(nw == 2)))
+                expect.append(f"const:{nw}")
+                insts.append(instgen.Inst(g.opv["Switch"], "Switch", None, None,
+                                          [instgen.Op("w", g.vix["IdRef"], v), instgen.Op("w", g.vix["IdRef"], 9)] + g.literal(nw == 2) + [instgen.Op("w", g.vix["IdRef"], 9)]))
+                expect.append(f"switch:1x{nw}")
+            words = instgen.header()
+            for i in insts:
+                words += i.words()
+            r = "parse " + instgen.to_bytes(words).hex()
+            reqs.append(r)
+            metas[r] = (insts, expect)
+            # the same number of *values* chained one from the other (the n-th value still has the type of the first)
+            insts = [instgen.Inst(g.opv["TypeInt"], "TypeInt", None, 1000, [instgen.Op("w", L32, 64), instgen.Op("w", L32, 0)]),
+                     instgen.Inst(g.opv["TypeInt"], "TypeInt", None, 999, [instgen.Op("w", L32, 32), instgen.Op("w", L32, 0)]),
+                     instgen.Inst(g.opv["Undef"], "Undef", 999, 998, [])]
+            for j in range(n):
+                insts.append(instgen.Inst(g.opv["Undef"], "Undef", 1000, 2000 + j, []))
+            insts.append(instgen.Inst(g.opv["Switch"], "Switch", None, None,
+                                      [instgen.Op("w", g.vix["IdRef"], 2000 + n - 1), instgen.Op("w", g.vix["IdRef"], 9)] + g.literal(True) + [instgen.Op("w", g.vix["IdRef"], 9)]))
+            insts.append(instgen.Inst(g.opv["Switch"], "Switch", None, None,
+                                      [instgen.Op("w", g.vix["IdRef"], 998), instgen.Op("w", g.vix["IdRef"], 9)] + g.literal(False) + [instgen.Op("w", g.vix["IdRef"], 9)]))
+            words = instgen.header()
+            for i in insts:
+                words += i.words()
+            r = "parse " + instgen.to_bytes(words).hex()
+            reqs.append(r)
+            metas[r] = (insts, ["switch:1x2", "switch:1x1"])
     # a parse that is *aborted* (parse error, consumer stop, consumer error) after it has seen type declarations, followed by a parse
     # that uses the same ids without declaring them: one word per literal, whatever the earlier parse had declared
     for w in (64, 128, 8):
